@@ -21,7 +21,7 @@ ASSUMPTIONS = ["reference model vf/props/C09.py:Model (sorted list by (prio, "
                "insertion seq)) is the meaning of 'stable priority queue'",
                "priorities are ints/floats without NaN"]
 MIN_COUNTERS = {'ops_compared': 1000, 'invariant_evals': 1000,
-                'score_histories': 5, 'score_failed_adds': 20, 'atexit_histories': 3, 'atexit_inrun_adds': 3, 'clock_histories': 40,
+                'score_histories': 5, 'score_failed_adds': 20, 'score_adds_of_a_reused_list': 100, 'atexit_histories': 3, 'atexit_inrun_adds': 3, 'clock_histories': 40,
                 'clock_wakeups_compared': 100, 'nrt_clock_histories': 300,
                 'clock_histories_moved_after_self_reschedule': 20,
                 'score_identical_bundles': 20, 'ppar_histories': 1500}
@@ -727,6 +727,9 @@ def run_score(spec, acc, Q):
             npay = rng.choice([1, 2, 3, n + 5])
             seen = set()
             faulty = i % 2 == 1
+            reuse = i % 3 == 2
+            nested_scratch = reuse and i % 2 == 0
+            scratch = [0.0, ['/m', 0]] + ([[0.0, ['/n', 0]]] if nested_scratch else [])
             for k, t in enumerate(times):
                 if faulty and rng.random() < 0.3:
                     # an entry the encoder refuses (later than everything else):
@@ -750,8 +753,22 @@ def run_score(spec, acc, Q):
                                            'duration': score.duration})
                             break
                 v = rng.randrange(npay)
-                msg = ['/m', v]
-                score.add([t, msg])
+                if reuse:
+                    # a caller that keeps one scratch bundle and rewrites it for
+                    # every add: the entries already in the score are not its list
+                    # (bundle lists only: the message lists inside are fresh ones -
+                    # what a score shows of a message the caller rewrites later is
+                    # not a question of time order)
+                    scratch[0] = t
+                    scratch[1] = ['/m', v]
+                    if nested_scratch:
+                        scratch[2][0] = t + 0.25
+                        scratch[2][1] = ['/n', v]
+                    score.add(scratch)
+                    acc.count('score_adds_of_a_reused_list')
+                else:
+                    msg = ['/m', v]
+                    score.add([t, msg])
                 entries.append((t, k, v))
                 if (t, v) in seen:
                     acc.count('score_identical_bundles')
@@ -774,6 +791,13 @@ def run_score(spec, acc, Q):
                 got = [(b[0], -1 if b[1][0] == '/g_new' else
                         10**6 if b[1][0] == '/c_set' else b[1][1])
                        for b in lst]
+                if nested_scratch and got == exp:
+                    # the nested bundle of each entry is the one that was added
+                    sub = [(b[2][0], b[2][1][1]) for b in lst if b[1][0] == '/m']
+                    subexp = [(e[0] + 0.25, e[1]) for e in exp if 0 <= e[1] < 10**6]
+                    if sub != subexp:
+                        acc.violation('C09/score-nested-entry-differs-from-what-was-added',
+                                      {'case': i, 'times': times, 'got': sub, 'expected': subexp})
                 if got != exp:
                     acc.violation('C09/score-order' if len(got) == len(exp)
                                   else 'C09/score-entry-count-differs',
